@@ -150,6 +150,22 @@ Theorem C09_push_closed : forall g local remote items gforce p,
 Proof. exact push_closed. Qed.
 Print Assumptions C09_push_closed.
 
+(** TRANSPORT FAULTS (one response of the exchange lost: connection abort, or HTTP/2 stream reset which makes
+    fetch.Fetch retry): whatever is lost, after fetch the local store is Closed, nothing is lost and every
+    created or moved ref has its whole history; a session that does not reach "done" writes no ref
+    (fetch_f returns the refs untouched in mode 1) *)
+Theorem C09_fetch_faults : forall g local remote specs gforce depth k p tn f,
+  Closed g (o_commits (r_objs local)) ->
+  fetch_post g local (snd (fetch_f g local remote specs gforce depth k p tn f)).
+Proof. exact fetch_f_closed. Qed.
+Print Assumptions C09_fetch_faults.
+
+Theorem C09_push_faults : forall g local remote items gforce p f,
+  Closed g (o_commits (r_objs remote)) -> RefsResolve remote ->
+  push_post g remote (snd (push_f g local remote items gforce p f)).
+Proof. exact push_f_closed. Qed.
+Print Assumptions C09_push_faults.
+
 (** session bookkeeping: popHaves offers only commits whose table is stored, at most k per round, exactly k
     unless the queue ran dry; the commons a negotiation ends with are commits the server knows that the
     client offered; the number of rounds is bounded by the fuel (= number of commits + 1) *)
